@@ -106,7 +106,9 @@ def modelHeaderOrder : List String :=
 theorem header_write (h : Dns.Header) (qd an ns ar : Nat) :
     h.write qd an ns ar =
       ((Gen.Env.headerWriteOrder.getD modelHeaderOrder).map (headerField h qd an ns ar)).flatten := by
-  simp [Dns.Header.write, Gen.Env.headerWriteOrder, headerField]
+  have h : Gen.Env.headerWriteOrder.getD modelHeaderOrder = modelHeaderOrder := by decide
+  rw [h]
+  simp [Dns.Header.write, modelHeaderOrder, headerField]
 
 /-- `Packet::write_header` passes the four section lengths in the order of `write_to`'s
 parameters (two sites that must agree) -/
